@@ -156,7 +156,11 @@ inline EdgeOut geod_edge_between(const Env& env, Ctx& c, const RV& A, const RV& 
     o.lenscale = std::max<LD>(1, o.len / env.half_circ); o.st = E_OK; return o;
   }
   if (A.lat == B.lat && lon12 == 0) { o.st = E_OK; o.certified = true; return o; }
-  o.preq = (env.f < -0.2 || env.f > 0.5) && std::max(std::fabs(A.lat), std::fabs(B.lat)) < 1e-8 && !(A.lat == 0 && B.lat == 0);
+  // regimes of two known GeodesicExact inverse defects (C02): strongly prolate (f < -0.2), both latitudes within 1e-3 deg of the equator and the
+  // longitudes more than 170 deg apart (errors from 0.1 mm at |lat| = 1e-4 deg to thousands of km at 1e-16 deg; none seen at <= 170 deg or
+  // |lat| >= 1e-3 deg); strongly oblate (f > 0.5), both latitudes within 1e-8 deg of the equator.  Never when both latitudes are exactly 0.
+  { double mx = std::max(std::fabs(A.lat), std::fabs(B.lat)); bool both0 = A.lat == 0 && B.lat == 0;
+    o.preq = !both0 && ((env.f < -0.2 && mx < 1e-3 && fabsl(lon12) > 170) || (env.f > 0.5 && mx < 1e-8)); }
   // seeds: library GeodesicExact (hint only; every candidate is verified by the reference direct solution)
   double s12, azi1, azi2, m12, M12, M21, S12;
   double a12 = env.S->exact->GenInverse(A.lat, A.lon, B.lat, B.lon, GeodesicExact::DISTANCE | GeodesicExact::AZIMUTH, s12, azi1, azi2, m12, M12, M21, S12);
@@ -190,7 +194,9 @@ inline EdgeOut geod_edge_between(const Env& env, Ctx& c, const RV& A, const RV& 
     o.seeded = true; ++c.events["ref: edges longer than the injectivity radius (shortest among verified candidates)"];
     // the global scan is run on a sample, and always when the library claims a shorter joining geodesic than every verified candidate
     bool lib_shorter = std::isfinite(s12) && (LD)s12 < best.s12 - margin;
-    if (lib_shorter || (scan_prob > 0 && c.rng.coin(scan_prob))) {
+    // (sampling by a hash of the end points, not by the case's random stream: the generated workload must not depend on oracle decisions)
+    uint64_t hs = vh::hmix(vh::hmix(vh::hmix(vh::hmix(0x5ca9, A.lat), A.lon), B.lat), B.lon);
+    if (lib_shorter || (scan_prob > 0 && (double)(hs % 1000003) < scan_prob * 1000003)) {
       // global certificate on a sample: scan the azimuth circle for any shorter joining geodesic
       ref::InvScan<LD> R = ref::ref_inverse_scan<LD>(env.a, env.f, A.lat, B.lat, (__float128)lon12, (double)(best.s12 * (1 + (LD)1e-9)), 720);
       ++c.events["ref: global-scan certificates run"]; o.scanned = true;
